@@ -137,10 +137,20 @@ def gen(rng, tier):
     p1 = gen_pack13(rng, w1)
     if w2["tracked"]:
         p1["ver"] = [{"t": "WordAtom"}]  # the library's AtomStrategy refuses classes with statistics
-    if rng.random() < 0.6:
+    r = rng.random()
+    if r < 0.4:
         p2 = dict(p1)
         if kind == "renamed" and p1["symmetries"]:
             p2 = dict(p1, symmetries=[])
+    elif r < 0.7:
+        # the same pack with seeded applicability masks: the two universes then offer different
+        # subsets of rules for corresponding classes, so the finder has to choose and backtrack
+        def masked(st):
+            return dict(st, mask=[rng.randrange(1000), rng.choice([50, 70, 85]), 6])
+
+        p2 = dict(p1, expansion=[[masked(st) for st in sets] for sets in p1["expansion"]], symmetries=[])
+        if rng.random() < 0.5:
+            p1 = dict(p1, expansion=[[masked(st) for st in sets] for sets in p1["expansion"]])
     else:
         p2 = gen_pack13(rng, w2)
     return {
